@@ -122,6 +122,12 @@ func NewEngine(spec WorldSpec) *Engine {
 	}
 	p, _ := parsers.NewESDTTransferParser(&ProtoMarshalizer{})
 	e.parser = p
+	e.M.Lookup = func(shard int, addr []byte, key string) []byte {
+		if a, ok := e.W.Shards[shard].Accounts[string(addr)]; ok {
+			return a.Storage[key]
+		}
+		return nil
+	}
 	return e
 }
 
